@@ -1,5 +1,6 @@
 import SE.Proofs.SafetyLoad
 import SE.Proofs.SafetyPipe
+import SE.Proofs.SafetyLoaded
 import SE.Spec.FloatLaws
 /-
 C19 — A configuration that loads is safe to run; one that is invalid is rejected.
@@ -15,11 +16,16 @@ C19 — A configuration that loads is safe to run; one that is invalid is reject
     vectors were created under safe configurations (`VecsSafe`), `handleEvent` never yields a `Panic`
     outcome, `VecsSafe` is preserved, and `Gather` does not panic — for single events, lines, and whole
     histories with reloads among safe configurations.
-(c) *The loader does not establish `ConfigSafe`*: the statement "every accepted configuration is safe"
-    is kept as `accepted_config_safe_statement` and **refuted** by four concrete accepted configurations
-    (unsorted buckets, negative `max_age`, a `max_age` too small for the age buckets, an objective
-    outside [0, 1]) that kill the exporter goroutine on the first matching event or scrape. These are
-    findings about the real code which the theorems record.
+(c) *The loader establishes `ConfigSafe`*: since `InitFromYAMLString` validates the effective bucket lists and
+    summary options of the defaults and of every mapping (`validateBuckets`, `validateSummaryOptions`), every
+    accepted configuration is `ConfigSafe` (`accepted_config_safe`) — under the hypotheses collected in the
+    structure `LoaderAssumptions` (SE/Proofs/SafetyLoaded.lean; hypotheses, not axioms): the IEEE fact that a
+    rank in [0, 1] never makes `Query` index out of range (`ObjectiveLaw`), and the `uint32` typing of
+    `age_buckets`. Hence a loaded configuration never panics (`loaded_config_never_panics`). The four
+    configurations that the old loader accepted and that killed the exporter goroutine (unsorted buckets,
+    negative `max_age`, a `max_age` too small for the age buckets, an objective outside [0, 1]) are now
+    rejected (`now_rejects_…`), as is every configuration of these four kinds (`rejects_unsorted_buckets`,
+    `rejects_bad_summary_options` and their variants for the defaults).
 -/
 namespace SE.Props.C19
 open SE
@@ -27,7 +33,7 @@ open SE
 /-! ## (a) invalid configurations are rejected -/
 
 section reject
-variable {V : Type}
+variable {V : Type} [NumOps V]
 
 /-- `List.mapM` in `Except` (how `load` runs `loadRule` over the rules) fails if some element fails. -/
 theorem mapM_fails_if_one_fails {ε α β} (f : α → Except ε β) (pre post : List α) (a : α)
@@ -55,10 +61,35 @@ theorem accepted_rule_facts {rxOk : Bytes → Bool} {db : List V} {dq : List (V 
       (r.histOpts.isSome && r.legacyBuckets.isSome && histBucketsSet r) = false ∧
       (effObs obs0 tim0 (defaultObs dobs0 dtim0) = .histogram → r.summaryOpts.isSome = false) ∧
       (effObs obs0 tim0 (defaultObs dobs0 dtim0) = .summary → r.histOpts.isSome = false) := by
-  obtain ⟨dm, dobs, dt, dbk, dqu, dma, dab, dbc, rule, hrule, dobs0, dtim0, dmt0, d1, d2, d3, e1, e2⟩ := load_ok_rules h r hr
+  obtain ⟨dm, dobs, dt, dbk, dqu, dma, dab, dbc, rule, hrule, dobs0, dtim0, dmt0, d1, d2, d3, e1, e2, _⟩ := load_ok_rules h r hr
   obtain ⟨obs0, tim0, mt0, act0, mmt, f1, f2, f3, f4, f5, f6, f7, f8, f9, f10, f11, f12, f13, f14⟩ := loadRule_ok_inv hrule
   subst e1 e2
   exact ⟨dobs0, dtim0, dmt0, obs0, tim0, mt0, act0, mmt, d1, d2, d3, f1, f2, f3, f4, f5, f6, f7, f8, f9, f10, f11, f12, f13, f14⟩
+
+/-- … and the outcome of `validateBuckets` / `validateSummaryOptions` on its effective options: with `ot` the
+    rule's effective observer type, `effBuckets r ot _` (histogram-typed: legacy `buckets`, else
+    `histogram_options.buckets`, else the default buckets; otherwise `histogram_options.buckets` as written) is
+    strictly increasing if the rule ends up with histogram options (`effHasHist`), and the effective
+    quantiles / `max_age` / `age_buckets` pass `summaryOptsOk` if it ends up with summary options. The defaults
+    are the effective ones (`effDefBuckets`, `effDefQuantiles`, `defSumOpts`). -/
+theorem accepted_rule_options {rxOk : Bytes → Bool} {db : List V} {dq : List (V × V)} {raw : RawConfig V} {cfg : Config V}
+    (h : load rxOk db dq raw = .ok cfg) (r : RawRule V) (hr : r ∈ raw.rules) :
+    ∃ dobs0 dtim0 obs0 tim0,
+      optDec decObserverType raw.defaults.observerType = .ok dobs0 ∧
+      optDec decObserverType raw.defaults.timerType = .ok dtim0 ∧
+      optDec decObserverType r.observerType = .ok obs0 ∧
+      optDec decObserverType r.timerType = .ok tim0 ∧
+      (effHasHist r (effObs obs0 tim0 (defaultObs dobs0 dtim0)) &&
+        !strictlyIncreasing (effBuckets r (effObs obs0 tim0 (defaultObs dobs0 dtim0)) (effDefBuckets raw db))) = false ∧
+      (effHasSum r (effObs obs0 tim0 (defaultObs dobs0 dtim0)) &&
+        !summaryOptsOk (effQuantiles r (effObs obs0 tim0 (defaultObs dobs0 dtim0)) (effDefQuantiles raw dq))
+          (effMaxAge r (effObs obs0 tim0 (defaultObs dobs0 dtim0)) (defSumOpts raw).maxAge)
+          (effAgeB r (effObs obs0 tim0 (defaultObs dobs0 dtim0)) (defSumOpts raw).ageBuckets)) = false := by
+  obtain ⟨dm, dobs, dt, dbk, dqu, dma, dab, dbc, rule, hrule, dobs0, dtim0, dmt0, d1, d2, d3, e1, e2, e3, e4, e5, e6⟩ :=
+    load_ok_rules h r hr
+  obtain ⟨obs0, tim0, _, _, _, f1, f2, _, _, _, _, _, _, _, _, _, _, _, _, f⟩ := loadRule_ok_full hrule
+  subst e1 e2 e3 e4 e5 e6
+  exact ⟨dobs0, dtim0, obs0, tim0, d1, d2, f1, f2, f.bucketsOk, f.summaryOk⟩
 
 /-- the common shape: an accepted configuration would contradict the defect -/
 private theorem reject_of (rxOk : Bytes → Bool) (db : List V) (dq : List (V × V)) (raw : RawConfig V)
@@ -69,6 +100,7 @@ variable (rxOk : Bytes → Bool) (db : List V) (dq : List (V × V)) (raw : RawCo
   (pre post : List (RawRule V)) (r : RawRule V) (hr : raw.rules = pre ++ r :: post)
 include hr
 
+omit [NumOps V] in
 private theorem mem_rules : r ∈ raw.rules := by rw [hr]; simp
 
 /-- **label key**: a rule with a label whose name does not match `^[a-zA-Z_][a-zA-Z0-9_]+$` is rejected. -/
@@ -266,6 +298,95 @@ theorem rejects_explicit_summary_with_histogram_options (hty : r.observerType = 
   subst this
   rw [f rfl] at hopts; cases hopts
 
+/-- **buckets not strictly increasing**: a rule that ends up with histogram options — it is histogram-typed
+    (`observer_type` / `timer_type` of the rule or of the defaults), or it has `histogram_options` — and whose
+    effective bucket list (legacy `buckets`, `histogram_options.buckets`, or the effective default buckets,
+    see `effBuckets`) is not strictly increasing is rejected (`validateBuckets`). -/
+theorem rejects_unsorted_buckets (obs tim dobs dtim : Option ObsTy)
+    (h1 : optDec decObserverType r.observerType = .ok obs) (h2 : optDec decObserverType r.timerType = .ok tim)
+    (h3 : optDec decObserverType raw.defaults.observerType = .ok dobs)
+    (h4 : optDec decObserverType raw.defaults.timerType = .ok dtim)
+    (hhist : effHasHist r (effObs obs tim (defaultObs dobs dtim)) = true)
+    (hbad : strictlyIncreasing (effBuckets r (effObs obs tim (defaultObs dobs dtim)) (effDefBuckets raw db)) = false) :
+    ∃ e, load rxOk db dq raw = .error e := by
+  refine reject_of rxOk db dq raw fun cfg h => ?_
+  obtain ⟨dobs0, dtim0, obs0, tim0, d1, d2, f1, f2, f, _⟩ := accepted_rule_options h r (mem_rules raw pre post r hr)
+  rw [h1] at f1; rw [h2] at f2; rw [h3] at d1; rw [h4] at d2
+  injection f1 with f1; injection f2 with f2; injection d1 with d1; injection d2 with d2
+  subst f1 f2 d1 d2
+  rw [hhist, hbad] at f; cases f
+
+/-- … in particular `histogram_options: {buckets: b}` with a non-empty `b` that is not strictly increasing,
+    whatever the observer type and the defaults (no assumption on the rest of the configuration). -/
+theorem rejects_unsorted_histogram_options (b : List V) (hopts : r.histOpts = some (some b)) (hne : b.isEmpty = false)
+    (hbad : strictlyIncreasing b = false) : ∃ e, load rxOk db dq raw = .error e := by
+  refine reject_of rxOk db dq raw fun cfg h => ?_
+  obtain ⟨_, _, _, _, _, _, _, _, _, _, _, _, _, _, _, _, _, _, _, _, _, _, fb, _, _⟩ :=
+    accepted_rule_facts h r (mem_rules raw pre post r hr)
+  obtain ⟨dobs0, dtim0, obs0, tim0, _, _, _, _, f, _⟩ := accepted_rule_options h r (mem_rules raw pre post r hr)
+  have hraw : rawBuckets r = b := by unfold rawBuckets; rw [hopts]
+  -- legacy `buckets` cannot be present next to `histogram_options.buckets`
+  have hleg : legacyOrRawBuckets r = b := by
+    unfold legacyOrRawBuckets
+    cases hl : r.legacyBuckets with
+    | none => exact hraw
+    | some lb =>
+      unfold histBucketsSet at fb
+      rw [hopts, hl] at fb; cases fb
+  have hh : effHasHist r (effObs obs0 tim0 (defaultObs dobs0 dtim0)) = true := by
+    unfold effHasHist; split
+    · rfl
+    · rw [hopts]; rfl
+  have hb : effBuckets r (effObs obs0 tim0 (defaultObs dobs0 dtim0)) (effDefBuckets raw db) = b := by
+    unfold effBuckets; split
+    · rw [hleg, hne]; rfl
+    · exact hraw
+  rw [hh, hb, hbad] at f; cases f
+
+/-- **invalid summary options**: a rule that ends up with summary options — it is summary-typed, or it has
+    `summary_options` — and whose effective quantiles / `max_age` / `age_buckets` (its own, else the effective
+    defaults', see `effQuantiles`, `effMaxAge`, `effAgeB`) fail `validateSummaryOptions` (a rank outside [0, 1],
+    a negative `max_age`, or a non-zero `max_age` smaller than the number of age buckets) is rejected. -/
+theorem rejects_bad_summary_options (obs tim dobs dtim : Option ObsTy)
+    (h1 : optDec decObserverType r.observerType = .ok obs) (h2 : optDec decObserverType r.timerType = .ok tim)
+    (h3 : optDec decObserverType raw.defaults.observerType = .ok dobs)
+    (h4 : optDec decObserverType raw.defaults.timerType = .ok dtim)
+    (hsum : effHasSum r (effObs obs tim (defaultObs dobs dtim)) = true)
+    (hbad : summaryOptsOk (effQuantiles r (effObs obs tim (defaultObs dobs dtim)) (effDefQuantiles raw dq))
+      (effMaxAge r (effObs obs tim (defaultObs dobs dtim)) (defSumOpts raw).maxAge)
+      (effAgeB r (effObs obs tim (defaultObs dobs dtim)) (defSumOpts raw).ageBuckets) = false) :
+    ∃ e, load rxOk db dq raw = .error e := by
+  refine reject_of rxOk db dq raw fun cfg h => ?_
+  obtain ⟨dobs0, dtim0, obs0, tim0, d1, d2, f1, f2, _, f⟩ := accepted_rule_options h r (mem_rules raw pre post r hr)
+  rw [h1] at f1; rw [h2] at f2; rw [h3] at d1; rw [h4] at d2
+  injection f1 with f1; injection f2 with f2; injection d1 with d1; injection d2 with d2
+  subst f1 f2 d1 d2
+  rw [hsum, hbad] at f; cases f
+
+/-- … in particular `summary_options` with a negative `max_age`, whatever the observer type and the defaults. -/
+theorem rejects_negative_max_age (q : Option (List (V × V))) (a : Int) (b c : Nat)
+    (hopts : r.summaryOpts = some (q, a, b, c)) (hneg : a < 0) : ∃ e, load rxOk db dq raw = .error e := by
+  refine reject_of rxOk db dq raw fun cfg h => ?_
+  obtain ⟨dobs0, dtim0, obs0, tim0, _, _, _, _, _, f⟩ := accepted_rule_options h r (mem_rules raw pre post r hr)
+  have hraw : rawMaxAge r = a := by unfold rawMaxAge; rw [hopts]
+  have hs : effHasSum r (effObs obs0 tim0 (defaultObs dobs0 dtim0)) = true := by
+    unfold effHasSum; split
+    · rfl
+    · rw [hopts]; rfl
+  have hm : effMaxAge r (effObs obs0 tim0 (defaultObs dobs0 dtim0)) (defSumOpts raw).maxAge = a := by
+    unfold effMaxAge; rw [hraw]
+    have : (a == 0) = false := by
+      have : a ≠ 0 := by omega
+      simpa using this
+    rw [this]; simp
+  rw [hs, hm] at f
+  have hbad : ∀ qs n, summaryOptsOk (V := V) qs a n = false := by
+    intro qs n
+    unfold summaryOptsOk
+    have : decide (a < 0) = true := by simpa using hneg
+    rw [this]; simp
+  rw [hbad] at f; cases f
+
 omit hr
 
 /-- **unknown `observer_type` in the defaults** -/
@@ -291,6 +412,23 @@ theorem rejects_unknown_default_match_type (s : Bytes) (hs : raw.defaults.matchT
   refine except_error_of_not_ok fun cfg h => ?_
   obtain ⟨_, _, _, _, _, f, _⟩ := load_ok_inv h
   rw [hs, optDec_error _ _ _ (decMatchType_unknown s h1 h2 h3)] at f; cases f
+
+/-- **default buckets not strictly increasing**: the effective default buckets — the defaults'
+    `histogram_options.buckets`, else their legacy `buckets`, else the library's `db` — are validated as well. -/
+theorem rejects_unsorted_default_buckets (hbad : strictlyIncreasing (effDefBuckets raw db) = false) :
+    ∃ e, load rxOk db dq raw = .error e := by
+  refine except_error_of_not_ok fun cfg h => ?_
+  obtain ⟨_, _, _, _, _, _, d, _, _, _, _, _, e3, _, _, _, v1, _⟩ := load_ok_inv h
+  rw [e3, hbad] at v1; cases v1
+
+/-- **invalid default summary options**: the effective default quantiles (the defaults' `summary_options.quantiles`,
+    else their legacy `quantiles`, else the exporter's `dq`), `max_age` and `age_buckets` are validated as well. -/
+theorem rejects_bad_default_summary_options
+    (hbad : summaryOptsOk (effDefQuantiles raw dq) (defSumOpts raw).maxAge (defSumOpts raw).ageBuckets = false) :
+    ∃ e, load rxOk db dq raw = .error e := by
+  refine except_error_of_not_ok fun cfg h => ?_
+  obtain ⟨_, _, _, _, _, _, d, _, _, _, _, _, _, e4, e5, e6, _, v2, _⟩ := load_ok_inv h
+  rw [e4, e5, e6, hbad] at v2; cases v2
 
 end reject
 
@@ -372,12 +510,83 @@ theorem objectives_safe_of_ceil_bounds (objs : List V)
 
 end safe
 
-/-! ## (c) the loader does not establish `ConfigSafe` -/
+/-! ## (c) the loader establishes `ConfigSafe` -/
 
-/-- (FALSE on the current code) every configuration that `load` accepts is safe to run -/
+section accepted
+variable {V : Type} [NumOps V]
+
+/-- **Every configuration the loader accepts is safe to run.** `LoaderAssumptions raw` (a structure of
+    hypotheses, SE/Proofs/SafetyLoaded.lean) asks for
+    * `objectiveLaw : ObjectiveLaw V` — for every rank `q` with `q ≥ 0` and `q ≤ 1` and every sample count `l`,
+      `queryPanics l q = false` (IEEE: `ceil(l·q) ∈ [0, l]`);
+    * `defaultsAgeBuckets`, `rulesAgeBuckets` — the `age_buckets` of the raw defaults and of each raw rule's
+      `summary_options` are `< 2^32` (Go's `uint32`).
+    Nothing is assumed about the library defaults `db`, `dq`: the loader validates the effective defaults. -/
+theorem accepted_config_safe (rxOk : Bytes → Bool) (db : List V) (dq : List (V × V)) (raw : RawConfig V) (cfg : Config V)
+    (ha : LoaderAssumptions raw) (h : load rxOk db dq raw = .ok cfg) : ConfigSafe cfg :=
+  load_configSafe ha h
+
+/-- what the loader validated, without any assumption on the number type: all bucket lists the exporter can use
+    are strictly increasing, all summary option sets it can use pass `summaryOptsOk` -/
+theorem accepted_config_validated (rxOk : Bytes → Bool) (db : List V) (dq : List (V × V)) (raw : RawConfig V) (cfg : Config V)
+    (hd : raw.defaults.summaryOpts.ageBuckets < uint32Bound) (hr : ∀ r, r ∈ raw.rules → rawAgeB r < uint32Bound)
+    (h : load rxOk db dq raw = .ok cfg) : ConfigValidated cfg :=
+  load_validated hd hr h
+
+/-- **A loaded configuration never panics.** Let `cfg` be accepted by the loader (under `LoaderAssumptions`), be
+    the current configuration of a pipeline whose registry is safe (`VecsSafe`: for instance empty, or left by
+    earlier runs under loaded configurations). Then no event, no line and no history — with sweeps, clock
+    changes and reloads among loaded configurations (`OpsLoaded`) — ends in a `Panic` outcome, and `Gather` does
+    not panic after any such history. -/
+theorem loaded_config_never_panics (rxOk : Bytes → Bool) (db : List V) (dq : List (V × V)) (raw : RawConfig V) (cfg : Config V)
+    (ha : LoaderAssumptions raw) (h : load rxOk db dq raw = .ok cfg)
+    (p : Pipe V) (hp : p.mapper.cfg = cfg) (hv : VecsSafe p.reg) (rx : Rx) :
+    (∀ ev tags pn, handleEvent p rx ev tags ≠ some (.error pn)) ∧
+    (∀ tags evs pn, handleEvents p rx tags evs ≠ some (.error pn)) ∧
+    (∀ ops, OpsLoaded ops →
+      (∀ pn, runOps rx p ops ≠ some (.error pn)) ∧
+      (∀ p', runOps rx p ops = some (.ok p') → p'.reg.gatherPanics = false)) ∧
+    p.reg.gatherPanics = false := by
+  have hc : ConfigSafe p.mapper.cfg := by rw [hp]; exact load_configSafe ha h
+  refine ⟨fun ev tags pn => config_safe_never_panics p rx ev tags hc hv pn,
+    fun tags evs pn => (config_safe_events_never_panic p rx tags evs hc hv).1 pn,
+    fun ops ho => ⟨(config_safe_history_never_panics rx p ops hc hv ho.opsSafe).1,
+      fun p' h' => history_gather_never_panics rx p p' ops hc hv ho.opsSafe h'⟩,
+    config_safe_gather_never_panics p.reg hv⟩
+
+/-- … in particular from the start of the process: a freshly loaded mapper and an empty registry. -/
+theorem loaded_config_never_panics_from_start (rxOk : Bytes → Bool) (db : List V) (dq : List (V × V)) (raw : RawConfig V)
+    (cfg : Config V) (ha : LoaderAssumptions raw) (h : load rxOk db dq raw = .ok cfg)
+    (pre : List (Bytes × MType × Bytes)) (rx : Rx) (ops : List (PipeOp V)) (ho : OpsLoaded ops) :
+    (∀ pn, runOps rx { mapper := MState.fresh cfg, reg := { metrics := [], pre := pre } } ops ≠ some (.error pn)) ∧
+    (∀ p', runOps rx { mapper := MState.fresh cfg, reg := { metrics := [], pre := pre } } ops = some (.ok p') →
+      p'.reg.gatherPanics = false) :=
+  ((loaded_config_never_panics rxOk db dq raw cfg ha h
+    { mapper := MState.fresh cfg, reg := { metrics := [], pre := pre } } rfl (vecs_safe_empty pre) rx).2.2.1 ops ho)
+
+/-- with valid library defaults, the configuration without any setting is accepted (so the hypothesis
+    `load … = .ok cfg` of the theorems above is satisfiable for every number type with such defaults) -/
+theorem empty_config_accepted (rxOk : Bytes → Bool) (db : List V) (dq : List (V × V)) (hs : LibraryDefaultsSane db dq) :
+    ∃ cfg, load rxOk db dq {} = .ok cfg := by
+  have hq : summaryOptsOk dq 0 0 = true :=
+    (summaryOptsOk_iff dq 0 0).mpr ⟨hs.quantiles, Int.le_refl 0, fun h => absurd rfl h⟩
+  cases hl : load rxOk db dq {} with
+  | ok cfg => exact ⟨cfg, rfl⟩
+  | error e =>
+    exfalso
+    unfold load at hl
+    simp [optDec, bind, Except.bind, pure, Except.pure, hs.buckets, hq] at hl
+
+end accepted
+
+/-- every configuration that `load` accepts is safe to run (under `LoaderAssumptions`), as one closed statement -/
 def accepted_config_safe_statement : Prop :=
   ∀ (V : Type) [NumOps V] (rxOk : Bytes → Bool) (db : List V) (dq : List (V × V)) (raw : RawConfig V) (cfg : Config V),
-    load rxOk db dq raw = .ok cfg → ConfigSafe cfg
+    LoaderAssumptions raw → load rxOk db dq raw = .ok cfg → ConfigSafe cfg
+
+/-- (this statement was false before the loader validated buckets and summary options) -/
+theorem accepted_config_safe_holds : accepted_config_safe_statement :=
+  fun _ _ rxOk db dq raw cfg ha h => accepted_config_safe rxOk db dq raw cfg ha h
 
 section counterexamples
 attribute [local instance] toyNumOps
@@ -388,118 +597,85 @@ private def dq0 : List (Int × Int) := [(0, 0), (1, 0)]
 private def noRx : Rx := fun _ _ => none
 private def obsEv (name : Bytes) : Ev Int := { kind := .observer, name := name, value := 1, relative := false }
 
-/-- the configuration loads and the first matching event ends in the panic `pn` (from the empty registry) -/
-private def loadsAndPanics (raw : RawConfig Int) (ev : Ev Int) (pn : Panic) : Bool :=
-  match load (fun _ => true) db0 dq0 raw with
-  | .ok cfg =>
-    (match handleEvent { mapper := MState.fresh cfg } noRx ev [] with
-     | some (.error e) => e == pn
-     | _ => false)
-  | .error _ => false
+/-- the objective law holds on the toy number type (`ceil(l·q) = l·q`; the ranks in [0, 1] are 0 and 1) -/
+theorem toy_objectiveLaw : ObjectiveLaw Int := by
+  intro q h0 h1 l
+  have h0' : q ≥ 0 := by have h : decide (q ≥ 0) = true := h0; simpa using h
+  have h1' : q ≤ 1 := by have h : decide (q ≤ 1) = true := h1; simpa using h
+  have hq : q = 0 ∨ q = 1 := by omega
+  unfold queryPanics
+  show (decide (l > 0) && (decide ((if (l : Int) * q > 0 then (l : Int) * q - 1 else (l : Int) * q) < 0) ||
+    decide ((if (l : Int) * q > 0 then (l : Int) * q - 1 else (l : Int) * q) ≥ (l : Int)))) = false
+  simp only [Bool.and_eq_false_imp, decide_eq_true_eq, Bool.or_eq_false_iff, decide_eq_false_iff_not]
+  intro hl
+  rcases hq with e | e <;> subst e <;> (split <;> omega)
 
-private theorem loadsAndPanics_spec {raw : RawConfig Int} {ev : Ev Int} {pn : Panic} (h : loadsAndPanics raw ev pn = true) :
-    ∃ cfg, load (fun _ => true) db0 dq0 raw = .ok cfg ∧
-      handleEvent { mapper := MState.fresh cfg } noRx ev [] = some (.error pn) := by
-  unfold loadsAndPanics at h
-  split at h
-  · rename_i cfg hl
-    refine ⟨cfg, hl, ?_⟩
-    split at h
-    · rename_i e he
-      rw [he, show e = pn from by simpa using h]
-    · cases h
-  · cases h
+/-- … and so do the library-default stand-ins -/
+theorem toy_defaults_sane : LibraryDefaultsSane db0 dq0 :=
+  ⟨by decide, by
+    intro q hq
+    have : q = (0, 0) ∨ q = (1, 0) := by simpa [dq0] using hq
+    rcases this with e | e <;> subst e <;> decide⟩
 
 /-- one rule `match: a`, `name: a`, `observer_type: histogram`, `histogram_options: {buckets: [1, 0]}` -/
 def rawUnsortedBuckets : RawConfig Int :=
   { rules := [{ matchStr := [97], name := [97], observerType := some (strBytes "histogram"), histOpts := some (some [1, 0]) }] }
 
-/-- **The loader accepts unsorted buckets**, and the first timer event `a` panics in `NewHistogram`
-    ("buckets must be in increasing order"). -/
-theorem loader_accepts_unsorted_buckets :
-    ∃ cfg, load (fun _ => true) db0 dq0 rawUnsortedBuckets = .ok cfg ∧
-      handleEvent { mapper := MState.fresh cfg } noRx (obsEv [97]) [] = some (.error .bucketsNotIncreasing) :=
-  loadsAndPanics_spec (by with_unfolding_all decide)
+/-- **Unsorted buckets are now rejected** (the old loader accepted this configuration, and the first timer event
+    `a` panicked in `NewHistogram`: "buckets must be in increasing order"). -/
+theorem now_rejects_unsorted_buckets : ∃ e, load (fun _ => true) db0 dq0 rawUnsortedBuckets = .error e :=
+  rejects_unsorted_histogram_options _ _ _ rawUnsortedBuckets [] [] _ rfl [1, 0] rfl rfl (by decide)
 
 /-- defaults: `observer_type: summary`, `summary_options: {max_age: -1ns}`; no rules -/
 def rawNegativeMaxAge : RawConfig Int :=
   { defaults := { observerType := some (strBytes "summary"), summaryOpts := { maxAge := -1 } } }
 
-/-- **The loader accepts a negative `max_age`**, and the first (unmapped) timer event panics in `NewSummary`
-    ("illegal max age"). -/
-theorem loader_accepts_negative_max_age :
-    ∃ cfg, load (fun _ => true) db0 dq0 rawNegativeMaxAge = .ok cfg ∧
-      handleEvent { mapper := MState.fresh cfg } noRx (obsEv [97]) [] = some (.error .negativeMaxAge) :=
-  loadsAndPanics_spec (by with_unfolding_all decide)
+/-- **A negative `max_age` is now rejected** (the old loader accepted it, and the first unmapped timer event
+    panicked in `NewSummary`: "illegal max age"). -/
+theorem now_rejects_negative_max_age : ∃ e, load (fun _ => true) db0 dq0 rawNegativeMaxAge = .error e :=
+  rejects_bad_default_summary_options _ _ _ rawNegativeMaxAge (by decide)
 
 /-- defaults: `observer_type: summary`, `summary_options: {max_age: 4ns}` (age buckets left at their default 5) -/
 def rawTinyMaxAge : RawConfig Int :=
   { defaults := { observerType := some (strBytes "summary"), summaryOpts := { maxAge := 4 } } }
 
-/-- **The loader accepts `max_age: 4ns`** with the default five age buckets: the stream duration is
-    `4 / 5 = 0` and the first `Observe` never returns (`summaryHang`). -/
-theorem loader_accepts_zero_stream_duration :
-    ∃ cfg, load (fun _ => true) db0 dq0 rawTinyMaxAge = .ok cfg ∧
-      handleEvent { mapper := MState.fresh cfg } noRx (obsEv [97]) [] = some (.error .summaryHang) :=
-  loadsAndPanics_spec (by with_unfolding_all decide)
+/-- **`max_age: 4ns` with the default five age buckets is now rejected** (the old loader accepted it: the stream
+    duration is `4 / 5 = 0` and the first `Observe` never returned, `summaryHang`). -/
+theorem now_rejects_zero_stream_duration : ∃ e, load (fun _ => true) db0 dq0 rawTinyMaxAge = .error e :=
+  rejects_bad_default_summary_options _ _ _ rawTinyMaxAge (by decide)
 
 /-- defaults: `observer_type: summary`, `summary_options: {quantiles: [{quantile: 2, error: 0}]}` -/
 def rawBadObjective : RawConfig Int :=
   { defaults := { observerType := some (strBytes "summary"), summaryOpts := { quantiles := [(2, 0)] } } }
 
-private def loadsAndGatherPanics (raw : RawConfig Int) (evs : List (Ev Int)) : Bool :=
-  match load (fun _ => true) db0 dq0 raw with
-  | .ok cfg =>
-    (match handleEvents { mapper := MState.fresh cfg } noRx [] evs with
-     | some (.ok p) => p.reg.gatherPanics
-     | _ => false)
-  | .error _ => false
-
 /-- the rank 2 makes `Query` index out of range with three samples (on the toy type `ceil(l·q) = l·q`) -/
 example : queryPanics 3 (2 : Int) = true := by decide
 
-/-- **The loader accepts an objective outside [0, 1]**: the events are processed, and the next scrape panics
-    inside `Gather` (perks' `Query`), leaving the summary's mutex locked. -/
-theorem loader_accepts_bad_objective :
-    ∃ cfg p, load (fun _ => true) db0 dq0 rawBadObjective = .ok cfg ∧
-      handleEvents { mapper := MState.fresh cfg } noRx [] [obsEv [97], obsEv [97], obsEv [97]] = some (.ok p) ∧
-      p.reg.gatherPanics = true := by
-  have h : loadsAndGatherPanics rawBadObjective [obsEv [97], obsEv [97], obsEv [97]] = true := by
-    with_unfolding_all decide
-  unfold loadsAndGatherPanics at h
-  split at h
-  · rename_i cfg hl
-    split at h
-    · rename_i p hp
-      exact ⟨cfg, p, hl, hp, h⟩
-    · cases h
-  · cases h
+/-- **An objective outside [0, 1] is now rejected** (the old loader accepted it: the events were processed, and
+    the next scrape panicked inside `Gather`, perks' `Query`, leaving the summary's mutex locked). -/
+theorem now_rejects_bad_objective : ∃ e, load (fun _ => true) db0 dq0 rawBadObjective = .error e :=
+  rejects_bad_default_summary_options _ _ _ rawBadObjective (by decide)
 
-/-- **"accepted ⇒ safe" is false**: the accepted configuration with unsorted buckets is not `ConfigSafe`
-    (if it were, `config_safe_never_panics` would exclude the panic it causes). -/
-theorem accepted_config_not_safe : ¬ accepted_config_safe_statement := by
-  intro hst
-  obtain ⟨cfg, hl, hp⟩ := loader_accepts_unsorted_buckets
-  have hc : ConfigSafe cfg := hst Int (fun _ => true) db0 dq0 rawUnsortedBuckets cfg hl
-  exact config_safe_never_panics { mapper := MState.fresh cfg } noRx (obsEv [97]) [] hc (vecs_safe_empty []) _ hp
+/-- the `uint32` hypothesis of `LoaderAssumptions` cannot be dropped *in the model*, whose `age_buckets` is an
+    unbounded `Nat`: with `age_buckets: 10^12` (not a `uint32`) and `max_age` unset the configuration loads, yet
+    the stream duration `600000000000 / 10^12` is zero. -/
+def rawHugeAgeBuckets : RawConfig Int :=
+  { defaults := { observerType := some (strBytes "summary"), summaryOpts := { ageBuckets := 1000000000000 } } }
 
-/-- none of the other three accepted configurations is `ConfigSafe` either -/
-theorem accepted_configs_not_safe :
-    (∃ cfg, load (fun _ => true) db0 dq0 rawNegativeMaxAge = .ok cfg ∧ ¬ ConfigSafe cfg) ∧
-    (∃ cfg, load (fun _ => true) db0 dq0 rawTinyMaxAge = .ok cfg ∧ ¬ ConfigSafe cfg) ∧
-    (∃ cfg, load (fun _ => true) db0 dq0 rawBadObjective = .ok cfg ∧ ¬ ConfigSafe cfg) := by
-  refine ⟨?_, ?_, ?_⟩
-  · obtain ⟨cfg, hl, hp⟩ := loader_accepts_negative_max_age
-    exact ⟨cfg, hl, fun hc =>
-      config_safe_never_panics { mapper := MState.fresh cfg } noRx (obsEv [97]) [] hc (vecs_safe_empty []) _ hp⟩
-  · obtain ⟨cfg, hl, hp⟩ := loader_accepts_zero_stream_duration
-    exact ⟨cfg, hl, fun hc =>
-      config_safe_never_panics { mapper := MState.fresh cfg } noRx (obsEv [97]) [] hc (vecs_safe_empty []) _ hp⟩
-  · obtain ⟨cfg, p, hl, hp, hg⟩ := loader_accepts_bad_objective
-    refine ⟨cfg, hl, fun hc => ?_⟩
-    have := ((config_safe_events_never_panic { mapper := MState.fresh cfg } noRx [] _ hc (vecs_safe_empty [])).2 p hp).1
-    rw [config_safe_gather_never_panics p.reg this] at hg
-    cases hg
+theorem uint32_assumption_needed :
+    ∃ cfg, load (fun _ => true) db0 dq0 rawHugeAgeBuckets = .ok cfg ∧ ¬ ConfigSafe cfg := by
+  cases hl : load (fun _ => true) db0 dq0 rawHugeAgeBuckets with
+  | error e =>
+    have : (load (fun _ => true) db0 dq0 rawHugeAgeBuckets).toBool = true := by with_unfolding_all decide
+    rw [hl] at this; cases this
+  | ok cfg =>
+    refine ⟨cfg, rfl, fun hc => ?_⟩
+    have hk : (match load (fun _ => true) db0 dq0 rawHugeAgeBuckets with | .ok c => configOk c | .error _ => true) = false := by
+      with_unfolding_all decide
+    rw [hl] at hk
+    change configOk cfg = false at hk
+    rw [((config_safe_iff cfg).mp hc).1] at hk
+    cases hk
 
 /-! ### Non-vacuity of (a) and (b) -/
 
@@ -542,6 +718,31 @@ example : ∃ cfg, load (fun _ => true) db0 dq0 rawGood = .ok cfg ∧ ConfigSafe
       intro _
       rw [show cfg.dQuantiles.map (·.1) = dq0.map (·.1) from by simpa using hq]
       exact hobj
+
+/-- the hypotheses of (c) are satisfiable, and (c) gives the same conclusion without evaluating anything about the
+    loaded configuration: `LoaderAssumptions rawGood` holds on the toy number type (`toy_objectiveLaw`; all age
+    buckets are 0), so `accepted_config_safe` applies -/
+example : ∃ cfg, load (fun _ => true) db0 dq0 rawGood = .ok cfg ∧ ConfigSafe cfg := by
+  have ha : LoaderAssumptions rawGood :=
+    ⟨toy_objectiveLaw, by decide, fun r hr => by
+      have e : r = { matchStr := strBytes "a.*", name := [98], observerType := some (strBytes "histogram"),
+                     histOpts := some (some [1, 2]) } := by simpa [rawGood] using hr
+      subst e; decide⟩
+  cases hl : load (fun _ => true) db0 dq0 rawGood with
+  | error e =>
+    have : (load (fun _ => true) db0 dq0 rawGood).toBool = true := by with_unfolding_all decide
+    rw [hl] at this; cases this
+  | ok cfg => exact ⟨cfg, rfl, accepted_config_safe _ _ _ _ _ ha hl⟩
+
+/-- a summary-typed configuration with its own quantiles, `max_age` and `age_buckets` that is accepted -/
+private def rawGoodSummary : RawConfig Int :=
+  { defaults := { observerType := some (strBytes "summary"), summaryOpts := { quantiles := [(1, 0)], maxAge := 10, ageBuckets := 2 } },
+    rules := [{ matchStr := strBytes "a.*", name := [98], summaryOpts := some (some [(0, 0)], 0, 3, 0) }] }
+
+example : (load (fun _ => true) db0 dq0 rawGoodSummary).toBool = true := by with_unfolding_all decide
+
+/-- the empty configuration is accepted on the toy number type (`empty_config_accepted`) -/
+example : ∃ cfg, load (fun _ => true) db0 dq0 {} = .ok cfg := empty_config_accepted _ _ _ toy_defaults_sane
 
 /-- the same rule with an illegal label key `1x` is rejected, wherever it stands -/
 example (pre post : List (RawRule Int)) :
